@@ -842,8 +842,6 @@ package graphql
 
 // ---- mutations force deferred values depth-first; queries breadth-first (C13) ----
 
-//@ func dethunkMapWithBreadthFirstTraversal
-//@   trusted
 //@ func getVariableValues
 //@   trusted
 //@   assigns nothing
@@ -1034,3 +1032,25 @@ package graphql
 //@   props C12 C10 C11
 //@   nosafety
 //@   orderfree
+
+// ---- queries force deferred values breadth first (C09: the result holds no thunk; C04) ----
+// As for the depth-first walk: a thunk is called once, and the value it produced (not the thunk) is
+// what is scheduled for descent.
+//@ func dethunkMapBreadthFirst
+//@   props C09 C04
+//@   nosafety
+//@   loop 1 ensures calls("f") <= atloop(1, calls("f")) + 1
+//@   loop 1 ensures calls("f") > atloop(1, calls("f")) && (typeis(lastresult("f"), "map[string]interface{}") || typeis(lastresult("f"), "[]interface{}")) ==> calls("push") == atloop(1, calls("push")) + 1
+//@   loop 1 ensures calls("f") == atloop(1, calls("f")) && (typeis(v, "map[string]interface{}") || typeis(v, "[]interface{}")) ==> calls("push") == atloop(1, calls("push")) + 1
+//@ func dethunkListBreadthFirst
+//@   props C09 C04
+//@   nosafety
+//@   loop 1 ensures calls("f") <= atloop(1, calls("f")) + 1
+//@   loop 1 ensures calls("f") > atloop(1, calls("f")) && (typeis(lastresult("f"), "map[string]interface{}") || typeis(lastresult("f"), "[]interface{}")) ==> calls("push") == atloop(1, calls("push")) + 1
+//@   loop 1 ensures calls("f") == atloop(1, calls("f")) && (typeis(v, "map[string]interface{}") || typeis(v, "[]interface{}")) ==> calls("push") == atloop(1, calls("push")) + 1
+//@ func dethunkQueue.push
+//@   trusted
+//@ func dethunkMapWithBreadthFirstTraversal
+//@   props C09
+//@   nosafety
+//@   at call dethunkMapBreadthFirst: assert arg0 == finalResults
